@@ -332,13 +332,42 @@ def time_of(res, tag):
     return 0 if tag == 0 else res["inputs"][tag - 1][0]
 
 
-def run_timed(chk, pid, names, oracle, ncase=None, p_dispose=0.15, only=None):
+CURRENT_CASE = [None]      # (operator name, case seed) of the case being evaluated (for cross-run oracles)
+
+
+def make_case(name, case_seed, p_dispose=0.15):
+    """one seeded case: operator instance, timeline, dispose instant, horizon -- a function of
+    (name, case_seed) only, so that a replay file needs nothing else"""
+    import random
+    r = random.Random(case_seed)
+    inst = table()[name](r)
+    nsrc = inst["n_static"] + inst.get("dynamic", 0)
+    evs = gen_timeline(r, nsrc, inst.get("bounds", ()), inst.get("gaps", ()), inst.get("from_end", ()))
+    disp = None
+    if r.random() < p_dispose and evs:
+        disp = r.choice(evs)[0] + r.choice([0, 0, 5])
+    horizon = None
+    if inst.get("periodic"):
+        horizon = max([e[0] for e in evs] + [0]) + 3 * inst["periodic"]
+    return inst, evs, disp, horizon
+
+
+def run_case(name, case_seed):
+    inst, evs, disp, horizon = make_case(name, case_seed)
+    res = k2m.run_multi(inst["build"], inst["n_static"], evs, use_scheduler=True, dispose_at=disp, horizon=horizon)
+    if res["build_error"] is not None:
+        raise RuntimeError(f"{name}: build error {res['build_error']!r}")
+    res["horizon"] = horizon
+    res["dispose_at"] = disp
+    return inst, evs, disp, res
+
+
+def run_timed(chk, pid, names, oracle, ncase=None, only=None):
     """for each operator name: seeded instances x seeded timelines; K2
     correspondence with the machine (on the delivered input sequence) + the
     property oracle on the implementation's log."""
     import lib
-    T = table()
-    ncase = ncase or (45 if chk.tier == "quick" else 700)
+    ncase = ncase or (45 if chk.tier == "quick" else 2000)
     gal = {}
     per_op = {}
     nontrivial = set()
@@ -346,31 +375,19 @@ def run_timed(chk, pid, names, oracle, ncase=None, p_dispose=0.15, only=None):
             "event_exactly_at_a_due_time": 0, "absolute_time_argument": 0}
     for name in names:
         for ci in range(ncase):
-            inst = T[name](chk.rng)
-            nsrc = inst["n_static"] + inst.get("dynamic", 0)
-            evs = gen_timeline(chk.rng, nsrc, inst.get("bounds", ()), inst.get("gaps", ()),
-                               inst.get("from_end", ()))
+            case_seed = chk.rng.getrandbits(48)
+            CURRENT_CASE[0] = (name, case_seed)
+            inst, evs, disp, res = run_case(name, case_seed)
             if len({e[0] for e in evs}) < len(evs):
                 hist["same_instant_events"] += 1
             if any(e[2][0] == "N" and not e[2][1] for e in evs):
                 hist["falsy_elements"] += 1
             if "Abs" in inst["coq"]:
                 hist["absolute_time_argument"] += 1
-            disp = None
-            if chk.rng.random() < p_dispose and evs:
-                disp = chk.rng.choice(evs)[0] + chk.rng.choice([0, 0, 5])
+            if disp is not None:
                 hist["with_dispose"] += 1
-            horizon = None
-            if inst.get("periodic"):
-                horizon = max([e[0] for e in evs] + [0]) + 3 * inst["periodic"]
-            res = k2m.run_multi(inst["build"], inst["n_static"], evs, use_scheduler=True, dispose_at=disp,
-                                horizon=horizon)
             chk.cov["evaluations"] += 1
             per_op[name] = per_op.get(name, 0) + 1
-            if res["build_error"] is not None:
-                raise RuntimeError(f"{name}: build error {res['build_error']!r}")
-            res["horizon"] = horizon
-            res["dispose_at"] = disp
             ticks = [i for i in res["inputs"] if i[1][0] == "tick"]
             hist["ticks_delivered"] += len(ticks)
             tick_times = {t for t, _ in ticks}
@@ -380,6 +397,10 @@ def run_timed(chk, pid, names, oracle, ncase=None, p_dispose=0.15, only=None):
             gt = k2m.g_trace(res, inst["enc"])
             sig = f"{name}|{inst['coq']}|{gi}"
             v = oracle(name, inst, res)
+            cases_to_replay = [[name, case_seed]]
+            if isinstance(v, tuple):                 # (message, [earlier cases the verdict depends on])
+                v, earlier = v
+                cases_to_replay = [list(c) for c in earlier] + cases_to_replay
             if res["escapes"]:
                 v = v or f"exception escaped into the emitter: {[repr(e) for _, e in res['escapes']]}"
             if v:
@@ -387,9 +408,11 @@ def run_timed(chk, pid, names, oracle, ncase=None, p_dispose=0.15, only=None):
                               {"operator": name, "machine": inst["coq"], "spec": repr(inst["spec"]),
                                "source events (time_ms, source, notification)": repr(evs),
                                "dispose_at": disp, "inputs (now, event)": gi, "observed trace": gt, "what": v,
-                               "how": "harness/timed_table.py: k2m.run_multi(build, n_static, events, "
-                                      "use_scheduler=True, dispose_at=...) with the operator instance named in "
-                                      "'spec'"},
+                               "cases": cases_to_replay,
+                               "how": "each case = (operator, case seed): harness/timed_table.py run_case() rebuilds "
+                                      "the operator instance and the timeline from the seed and runs it with "
+                                      "k2m.run_multi(..., use_scheduler=True); the replay command re-runs the listed "
+                                      "cases through the oracle"},
                               size=len(res["inputs"]))
             elif sum(1 for e in res["log"] if e[1] == "emit") >= 2:
                 nontrivial.add(sig)
@@ -474,3 +497,34 @@ def src_view(v, k=0):
     el = [(t, tag, ev[1]) for (t, tag, kk, ev) in v["acc"] if kk == k and ev[0] == "N"]
     tm = [(t, tag, ev[0], ev[1] if ev[0] == "E" else None) for (t, tag, kk, ev) in v["acc"] if kk == k and ev[0] in "EC"]
     return el, (tm[0] if tm else None)
+
+
+def replay_cases(pid, oracle, path, reset=None):
+    """re-run the cases of a replay file on the CURRENT /repo tree through the oracle"""
+    import json
+    rep = json.load(open(path))
+    if "cases" not in rep:
+        print(json.dumps(rep, indent=1))
+        return 1
+    if reset:
+        reset()
+    verdict = None
+    for (name, case_seed) in rep["cases"]:
+        CURRENT_CASE[0] = (name, case_seed)
+        inst, evs, disp, res = run_case(name, case_seed)
+        print(f"case {name} seed={case_seed}: {inst['spec']!r}")
+        print(f"  source events (time_ms, source, notification): {evs!r}   dispose_at={disp}")
+        print(f"  delivered inputs: {res['inputs']!r}")
+        print(f"  boundary log (input position, kind, a, b): {res['log']!r}")
+        v = oracle(name, inst, res)
+        if isinstance(v, tuple):
+            v = v[0]
+        if res["escapes"]:
+            v = v or f"exception escaped into the emitter: {[repr(e) for _, e in res['escapes']]}"
+        print(f"  oracle: {v or 'ok'}")
+        verdict = v or verdict
+    if verdict:
+        print(f"VIOLATION property={pid} replay={path}")
+        return 1
+    print(f"[{pid}] replay: the recorded cases satisfy the oracle on the current tree")
+    return 0
